@@ -255,8 +255,8 @@ static void prop_mixed(Tape &t, Ctx &c) {
 
 static std::vector<Prop> props() {
     return {
-        Prop("complex", prop_complex, 400, 6000, 100, 30, {1, 4}, 2, 8),
-        Prop("mixed", prop_mixed, 150, 2500, 100, 300, {1, 4}, 2, 8),
+        Prop("complex", prop_complex, 400, 6000, 100, 30, {1}, 3, 8),
+        Prop("mixed", prop_mixed, 150, 2500, 100, 300, {1}, 3, 8),
     };
 }
 static std::vector<Enum> enums() { return {}; }
